@@ -20,9 +20,16 @@
    Python raises IndexError where the combinators are total (x[-1] of an empty list); the only
    such place reachable with the arguments quantified here is lines[-1] in clean_doc_lines for
    lines = [], excluded by the hypothesis  lines <> []  (its only caller passes the result of
-   str.split, which is never empty). *)
-From Coq Require Import String List NArith Bool Arith Lia.
-From CMinx Require Import Base.Str Base.PySem Model.Writer Model.DocTypes Model.Aggregator Gen.PySource.
+   str.split, which is never empty).
+
+   Part D covers the process_* methods of DocumentationAggregator that do not depend on object
+   aliasing: the ANTLR contexts are Model.Parser.cmd / arg (a fixed vocabulary, see Base/PySem.v),
+   self.documented is a list of Model.DocTypes.entry (the documentation classes are entry
+   constructors), a Python int that may be negative (name_index = -1) is a Z, and the one aliasing
+   assignment self.documented_awaiting_function_def = test_doc is the position of the appended
+   entry (the model's AwTop idx). *)
+From Coq Require Import String List NArith ZArith Bool Arith Lia.
+From CMinx Require Import Base.Str Base.PySem Model.Writer Model.DocTypes Model.Lexer Model.Parser Model.Aggregator Gen.PySource.
 Import ListNotations.
 
 (* ---- spec ---- *)
@@ -36,6 +43,12 @@ Definition var_type_of (t : vartype) : PySource.VarType :=
   | VList => PySource.VarType_LIST
   | VUnset => PySource.VarType_UNSET
   end.
+(* the documented list of an aggregator step that may crash *)
+Definition result_docs (r : result agg) : option (list entry) :=
+  match r with Ok st => Some (documented st) | Crash => None end.
+(* Python's name_index (an int, -1 = no NAME keyword seen) for the model's option nat *)
+Definition name_index_of (i : option nat) : Z :=
+  match i with None => (-1)%Z | Some k => Z.of_nat k end.
 (* the document w with the element e appended to the top-level writer *)
 Definition w_add (w : wstate) (e : elem) : wstate :=
   {| w_title := w_title w; w_body := w_body w ++ [e] |}.
@@ -638,6 +651,423 @@ Corollary function_process_on_fresh_writer :
     = [render_entry (EFunction false name doc params kw)].
 Proof. intros. rewrite function_process_matches_source. reflexivity. Qed.
 
+(* ------------------------------------------------------------------ *)
+(* D. aggregator.py: the alias-free process_* methods                  *)
+
+(* A Command_invocationContext is a Model.Parser.cmd, an argument context a Model.Parser.arg
+   (vocabulary in Base/PySem.v).  The methods read and extend self.documented; the translated
+   functions take its value and return the new one, and the theorems state that this is the
+   documented component of the model's step (the model additionally threads the ghost origins
+   list, which has no Python counterpart). *)
+
+Lemma arg_depth_in : forall l x,
+  In x l -> py_arg_depth x <= fold_right (fun y m => Nat.max (py_arg_depth y) m) 0 l.
+Proof.
+  intros l x. induction l as [|y r IH]; intros Hin.
+  - destruct Hin.
+  - cbn [fold_right]. destruct Hin as [->|Hin].
+    + apply Nat.le_max_l.
+    + etransitivity; [apply IH; exact Hin | apply Nat.le_max_r].
+Qed.
+
+(* the unrolled recursion of _argument_text computes arg_written when the fuel exceeds the depth *)
+Lemma argument_text_fuel : forall n a,
+  py_arg_depth a < n ->
+  py_fuel_fix n
+    (fun rec a =>
+       if py_is_compound a
+       then ((s"(") ++ py_join (s" ") (py_listcomp (fun val => rec val) (py_argument_children a)))
+            ++ (s")")
+       else py_get_text a) ([] : str) a
+  = arg_written a.
+Proof.
+  induction n as [|n IH]; intros a Hd.
+  - lia.
+  - cbn [py_fuel_fix]. destruct a as [k t|l].
+    + reflexivity.
+    + cbn [py_is_compound py_argument_children arg_written]. unfold py_listcomp, py_join.
+      rewrite (map_ext_in _ arg_written).
+      * rewrite <- app_assoc. reflexivity.
+      * intros x Hin. apply IH. cbn [py_arg_depth] in Hd.
+        pose proof (arg_depth_in l x Hin) as Hle. lia.
+Qed.
+
+(* DocumentationAggregator._argument_text(arg) *)
+Theorem argument_text_matches_source :
+  forall a, arg_written a = PySource.DocumentationAggregator__argument_text a.
+Proof.
+  intros a. unfold PySource.DocumentationAggregator__argument_text, py_arg_rec.
+  symmetry. apply argument_text_fuel. lia.
+Qed.
+
+(* DocumentationAggregator.process_generic_command(command_name, ctx, docstring) *)
+Theorem process_generic_matches_source :
+  forall command c doc docd st,
+    documented (process_generic command c doc docd st)
+    = PySource.DocumentationAggregator_process_generic_command command c doc (documented st).
+Proof.
+  intros command c doc docd st.
+  unfold PySource.DocumentationAggregator_process_generic_command, process_generic, append.
+  cbn [documented]. unfold py_append, py_listcomp, py_cmd_argument_children.
+  rewrite (map_ext _ _ argument_text_matches_source). reflexivity.
+Qed.
+
+(* ctx.single_argument() with getText() on each element is the model's singles *)
+Lemma singles_as_texts : forall c, singles c = map py_get_text (py_single_arguments c).
+Proof.
+  intros c. unfold singles, py_single_arguments. induction (c_args c) as [|a r IH].
+  - reflexivity.
+  - destruct a as [k t|l]; cbn [singles_of filter py_is_compound negb map py_get_text arg_text].
+    + rewrite IH. reflexivity.
+    + exact IH.
+Qed.
+
+Lemma last_opt_cons2 : forall (A : Type) (a b : A) r, last_opt (a :: b :: r) = last_opt (b :: r).
+Proof. reflexivity. Qed.
+
+(* the quote-pair stripping of process_set is the model's unquote *)
+Lemma unquote_as_source : forall v,
+  unquote v
+  = Some (if py_int_ge (py_len v) 2 && py_str_eq (py_index_str v 0) (s"""")
+             && py_str_eq (py_last_str v) (s"""")
+          then py_slice_drop_last (py_slice_from v 1) else v).
+Proof.
+  intros v. unfold unquote. destruct v as [|a r].
+  - reflexivity.
+  - destruct r as [|b r'].
+    + cbn [py_len length py_int_ge Nat.leb andb last_opt].
+      destruct (a =? 34)%N; reflexivity.
+    + unfold py_int_ge, py_len. cbn [length Nat.leb andb py_index_str nth_error].
+      unfold py_str_eq. change (s"""") with [34%N]. rewrite str_eqb_single.
+      destruct (a =? 34)%N eqn:Ea; cbn [andb]; [|reflexivity].
+      unfold py_last_str. rewrite last_opt_cons2.
+      destruct (last_opt (b :: r')) as [z|] eqn:El.
+      * rewrite str_eqb_single. destruct (z =? 34)%N; reflexivity.
+      * reflexivity.
+Qed.
+
+Lemma three_or_more_is_list : forall n,
+  py_zint_gt (py_zint_sub (py_zint_of_int (S (S (S n)))) (py_zint_of_int 1)) (py_zint_of_int 1) = true.
+Proof.
+  intros n. unfold py_zint_gt, py_zint_sub, py_zint_of_int. apply Z.ltb_lt. lia.
+Qed.
+
+(* DocumentationAggregator.process_set(ctx, docstring): the model step never crashes and its
+   documented list is the translated function's result *)
+Theorem process_set_matches_source :
+  forall c doc docd st,
+    result_docs (process_set c doc docd st)
+    = Some (PySource.DocumentationAggregator_process_set c doc (documented st)).
+Proof.
+  intros c doc docd st. unfold process_set, PySource.DocumentationAggregator_process_set.
+  rewrite singles_as_texts.
+  destruct (py_single_arguments c) as [|a0 [|a1 [|a2 r]]].
+  - reflexivity.
+  - reflexivity.
+  - cbn [map]. rewrite unquote_as_source. reflexivity.
+  - cbv zeta. unfold py_len. cbn [length]. rewrite three_or_more_is_list.
+    reflexivity.
+Qed.
+
+Corollary process_set_never_crashes :
+  forall c doc docd st, exists st',
+    process_set c doc docd st = Ok st'
+    /\ documented st' = PySource.DocumentationAggregator_process_set c doc (documented st).
+Proof.
+  intros c doc docd st. pose proof (process_set_matches_source c doc docd st) as H.
+  destruct (process_set c doc docd st) as [st'|]; cbn [result_docs] in H.
+  - exists st'. split; [reflexivity|]. congruence.
+  - discriminate H.
+Qed.
+
+(* DocumentationAggregator.process_option(ctx, docstring) *)
+Theorem process_option_matches_source :
+  forall c doc docd st,
+    documented (process_option c doc docd st)
+    = PySource.DocumentationAggregator_process_option c doc (documented st).
+Proof.
+  intros c doc docd st. unfold process_option, PySource.DocumentationAggregator_process_option.
+  rewrite singles_as_texts.
+  destruct (py_single_arguments c) as [|a0 [|a1 [|a2 [|a3 r]]]]; reflexivity.
+Qed.
+
+(* ---- process_add_test ---- *)
+
+(* the NAME loop of process_add_test as the translator renders it: params = the texts, exitv = the
+   function result at the return statement of the except IndexError handler *)
+Definition at_body (params : list str) (R : Type) (exitv : R)
+  : str * Z -> nat -> (str * Z) + R :=
+  fun '(name, name_index) i =>
+    let param := py_list_index ([] : str) params i in
+    if py_str_eq param (s"NAME") then
+      (if py_int_lt (i + 1) (py_len params) then
+         (let name := py_list_index ([] : str) params (i + 1) in
+          let name_index := (py_zint_of_int i) in
+          inl (name, name_index))
+       else inr exitv)
+    else inl (name, name_index).
+
+Lemma nth_app_len_succ : forall (A : Type) (d : A) (pre : list A) x y r,
+  nth (length pre + 1) (pre ++ x :: y :: r) d = y.
+Proof.
+  intros A d pre x y r. induction pre as [|p pre IH]; cbn [app length nth plus]; auto.
+Qed.
+
+Lemma add_test_loop : forall (R : Type) (exitv : R) rest pre name idx,
+  py_for_ret (seq (length pre) (length rest)) (at_body (pre ++ rest) R exitv)
+             (name, name_index_of idx)
+  = match scan_name_idx rest (length pre) (idx, name) with
+    | None => inr exitv
+    | Some (idx', name') => inl (name', name_index_of idx')
+    end.
+Proof.
+  intros R exitv rest. induction rest as [|p r IH]; intros pre name idx.
+  - reflexivity.
+  - assert (IH' : forall name' idx',
+              py_for_ret (seq (S (length pre)) (length r)) (at_body (pre ++ p :: r) R exitv)
+                         (name', name_index_of idx')
+              = match scan_name_idx r (S (length pre)) (idx', name') with
+                | None => inr exitv
+                | Some (i2, n2) => inl (n2, name_index_of i2)
+                end).
+    { intros name' idx'. specialize (IH (pre ++ [p]) name' idx').
+      rewrite app_length, <- app_assoc in IH. cbn [length app] in IH.
+      rewrite Nat.add_1_r in IH. exact IH. }
+    cbn [length seq py_for_ret scan_name_idx]. unfold at_body at 1. cbv zeta.
+    unfold py_list_index at 1. rewrite nth_app_len.
+    unfold py_str_eq. change (s"NAME") with kw_name.
+    destruct (str_eqb p kw_name).
+    + unfold py_int_lt, py_len. rewrite app_length. cbn [length].
+      destruct r as [|n r'].
+      * cbn [length]. replace (length pre + 1 <? length pre + 1) with false
+          by (symmetry; apply Nat.ltb_irrefl). reflexivity.
+      * cbn [length]. replace (length pre + 1 <? length pre + S (S (length r'))) with true
+          by (symmetry; apply Nat.ltb_lt; lia).
+        unfold py_list_index. rewrite nth_app_len_succ.
+        change (py_zint_of_int (length pre)) with (name_index_of (Some (length pre))).
+        apply IH'.
+    + apply IH'.
+Qed.
+
+(* everything at or after position a is kept by a filter that accepts all those positions *)
+Lemma enumerate_keep_all : forall (A : Type) (P : nat -> bool) (ps : list A) a,
+  (forall i, a <= i -> P i = true) ->
+  map (fun '(i, p) => p) (filter (fun '(i, p) => P i) (combine (seq a (length ps)) ps)) = ps.
+Proof.
+  intros A P ps. induction ps as [|x r IH]; intros a Hall.
+  - reflexivity.
+  - cbn [length seq combine filter]. rewrite (Hall a) by lia. cbn [map].
+    f_equal. apply IH. intros i Hi. apply Hall. lia.
+Qed.
+
+(* dropping the positions k and k+1 *)
+Lemma enumerate_drop_pair : forall (A : Type) (P : nat -> bool) k,
+  P k = false -> P (S k) = false ->
+  (forall i, i < k -> P i = true) -> (forall i, S k < i -> P i = true) ->
+  forall d (ps : list A) a, k = a + d ->
+    map (fun '(i, p) => p) (filter (fun '(i, p) => P i) (combine (seq a (length ps)) ps))
+    = firstn d ps ++ skipn (d + 2) ps.
+Proof.
+  intros A P k Hk Hk1 Hlo Hhi. induction d as [|d IH]; intros ps a Ha.
+  - replace a with k by lia. destruct ps as [|x [|y r]].
+    + reflexivity.
+    + cbn [length seq combine filter]. rewrite Hk. reflexivity.
+    + cbn [length seq combine filter]. rewrite Hk, Hk1. cbn [firstn app plus skipn].
+      apply enumerate_keep_all. intros i Hi. apply Hhi. lia.
+  - destruct ps as [|x r].
+    + reflexivity.
+    + cbn [length seq combine filter]. rewrite (Hlo a) by lia.
+      cbn [map firstn app plus skipn]. f_equal. apply IH. lia.
+Qed.
+
+(* the by-position comprehension of process_add_test is the model's drop_name_pair *)
+Lemma drop_name_pair_as_source : forall idx ps,
+  py_listcomp_if
+    (fun '(i, p) =>
+       (py_zint_lt (name_index_of idx) (py_zint_of_int 0)
+        || negb (py_zint_eq (py_zint_of_int i) (name_index_of idx)
+                 || py_zint_eq (py_zint_of_int i)
+                      (py_zint_add (name_index_of idx) (py_zint_of_int 1)))))
+    (fun '(i, p) => p) (py_enumerate ps)
+  = drop_name_pair idx ps.
+Proof.
+  intros idx ps. unfold py_listcomp_if, py_enumerate, drop_name_pair.
+  destruct idx as [k|]; cbn [name_index_of].
+  - set (P := fun i : nat =>
+                py_zint_lt (Z.of_nat k) (py_zint_of_int 0)
+                || negb (py_zint_eq (py_zint_of_int i) (Z.of_nat k)
+                         || py_zint_eq (py_zint_of_int i)
+                              (py_zint_add (Z.of_nat k) (py_zint_of_int 1)))).
+    assert (HP : forall i, P i = negb ((i =? k) || (i =? S k))).
+    { intros i. unfold P, py_zint_lt, py_zint_eq, py_zint_add, py_zint_of_int.
+      replace (Z.of_nat k <? Z.of_nat 0)%Z with false by (symmetry; apply Z.ltb_ge; lia).
+      cbn [orb]. f_equal. f_equal.
+      - destruct (Nat.eqb_spec i k) as [->|Hne]; [apply Z.eqb_refl | apply Z.eqb_neq; lia].
+      - destruct (Nat.eqb_spec i (S k)) as [->|Hne]; [apply Z.eqb_eq; lia | apply Z.eqb_neq; lia]. }
+    change (map (fun '(i, p) => p)
+              (filter (fun '(i, p) => P i) (combine (seq 0 (length ps)) ps))
+            = firstn k ps ++ skipn (k + 2) ps).
+    apply (enumerate_drop_pair str P k).
+    + rewrite HP, Nat.eqb_refl. reflexivity.
+    + rewrite HP, Nat.eqb_refl, orb_true_r. reflexivity.
+    + intros i Hi. rewrite HP.
+      destruct (Nat.eqb_spec i k); [lia|]. destruct (Nat.eqb_spec i (S k)); [lia|]. reflexivity.
+    + intros i Hi. rewrite HP.
+      destruct (Nat.eqb_spec i k); [lia|]. destruct (Nat.eqb_spec i (S k)); [lia|]. reflexivity.
+    + reflexivity.
+  - change (map (fun '(i, p) => p)
+              (filter (fun '(i, p) => (fun _ : nat => true) i) (combine (seq 0 (length ps)) ps))
+            = ps).
+    apply enumerate_keep_all. reflexivity.
+Qed.
+
+(* DocumentationAggregator.process_add_test(ctx, docstring).  name_index is an int with the
+   sentinel -1 in Python and an integer Z in the translation; the model's option nat is related
+   to it by name_index_of *)
+Theorem process_add_test_matches_source :
+  forall c doc docd st,
+    documented (process_add_test c doc docd st)
+    = PySource.DocumentationAggregator_process_add_test c doc (documented st).
+Proof.
+  intros c doc docd st. unfold process_add_test, PySource.DocumentationAggregator_process_add_test.
+  rewrite singles_as_texts. cbv zeta. unfold py_listcomp at 1 2 3 4 5.
+  set (ps := map py_get_text (py_single_arguments c)).
+  unfold py_int_lt at 1, py_len at 1.
+  destruct (length ps <? 2) eqn:Hshort.
+  - reflexivity.
+  - rewrite py_range_0. unfold py_len at 1.
+    pose proof (add_test_loop (list entry) (documented st) ps [] [] None) as Hloop.
+    cbn [app length] in Hloop.
+    match goal with
+    | |- _ = match ?X with inl _ => _ | inr _ => _ end =>
+        change X with (py_for_ret (seq 0 (length ps)) (at_body ps (list entry) (documented st))
+                         (([] : str), name_index_of None))
+    end.
+    rewrite Hloop. clear Hloop.
+    destruct (scan_name_idx ps 0 (None, [])) as [[idx name]|] eqn:E1.
+    + try match goal with
+          | |- context [scan_name_idx ?a ?b ?c] =>
+              assert (E2 : scan_name_idx a b c = Some (idx, name)) by exact E1; rewrite E2
+          end.
+      unfold append. cbn [documented]. cbv beta iota. unfold py_append.
+      do 3 f_equal. symmetry. exact (drop_name_pair_as_source idx ps).
+    + try match goal with
+          | |- context [scan_name_idx ?a ?b ?c] =>
+              assert (E2 : scan_name_idx a b c = None) by exact E1; rewrite E2
+          end.
+      reflexivity.
+Qed.
+
+
+(* ---- process_ct_add_test / process_ct_add_section ---- *)
+
+Lemma str_eqb_true : forall a b : str, str_eqb a b = true -> a = b.
+Proof.
+  induction a as [|x a IH]; intros b H; destruct b as [|y b]; cbn [str_eqb] in H;
+    try discriminate H.
+  - reflexivity.
+  - apply andb_prop in H. destruct H as [Hx Ha]. apply N.eqb_eq in Hx. subst y.
+    f_equal. apply IH. exact Ha.
+Qed.
+
+(* the NAME / EXPECTFAIL loop of process_ct_add_test and process_ct_add_section as the translator
+   renders it *)
+Definition ct_body (params : list str) (R : Type) (exitv : R)
+  : str * bool -> nat -> (str * bool) + R :=
+  fun '(name, expect_fail) i =>
+    let param := py_list_index ([] : str) params i in
+    if py_str_eq param (s"NAME") then
+      (if py_int_lt (i + 1) (py_len params) then
+         (let name := py_list_index ([] : str) params (i + 1) in
+          let expect_fail := if py_str_eq param (s"EXPECTFAIL") then true else expect_fail in
+          inl (name, expect_fail))
+       else inr exitv)
+    else
+      (let expect_fail := if py_str_eq param (s"EXPECTFAIL") then true else expect_fail in
+       inl (name, expect_fail)).
+
+Lemma ct_loop : forall (R : Type) (exitv : R) rest pre name xf,
+  py_for_ret (seq (length pre) (length rest)) (ct_body (pre ++ rest) R exitv) (name, xf)
+  = match scan_name rest name with
+    | None => inr exitv
+    | Some name' => inl (name', xf || has_expectfail rest)
+    end.
+Proof.
+  intros R exitv rest. induction rest as [|p r IH]; intros pre name xf.
+  - cbn [length seq py_for_ret scan_name has_expectfail existsb]. rewrite orb_false_r. reflexivity.
+  - assert (IH' : forall name' xf',
+              py_for_ret (seq (S (length pre)) (length r)) (ct_body (pre ++ p :: r) R exitv)
+                         (name', xf')
+              = match scan_name r name' with
+                | None => inr exitv
+                | Some n2 => inl (n2, xf' || has_expectfail r)
+                end).
+    { intros name' xf'. specialize (IH (pre ++ [p]) name' xf').
+      rewrite app_length, <- app_assoc in IH. cbn [length app] in IH.
+      rewrite Nat.add_1_r in IH. exact IH. }
+    cbn [length seq py_for_ret scan_name]. unfold ct_body at 1. cbv zeta.
+    unfold py_list_index. rewrite !nth_app_len.
+    unfold py_str_eq. change (s"NAME") with kw_name. change (s"EXPECTFAIL") with kw_expectfail.
+    unfold has_expectfail. cbn [existsb]. fold (has_expectfail r).
+    destruct (str_eqb p kw_name) eqn:Ename.
+    + apply str_eqb_true in Ename. subst p.
+      change (str_eqb kw_name kw_expectfail) with false. cbn [orb].
+      unfold py_int_lt, py_len. rewrite app_length. cbn [length].
+      destruct r as [|n r'].
+      * cbn [length]. replace (length pre + 1 <? length pre + 1) with false
+          by (symmetry; apply Nat.ltb_irrefl). reflexivity.
+      * cbn [length]. replace (length pre + 1 <? length pre + S (S (length r'))) with true
+          by (symmetry; apply Nat.ltb_lt; lia).
+        rewrite nth_app_len_succ. apply IH'.
+    + rewrite IH'. destruct (scan_name r name) as [n2|]; [|reflexivity].
+      destruct (str_eqb p kw_expectfail); cbn [orb].
+      * rewrite orb_true_r. reflexivity.
+      * reflexivity.
+Qed.
+
+Ltac ct_process_proof :=
+      intros c doc docd st; unfold process_test;
+      rewrite singles_as_texts; cbv zeta; unfold py_listcomp;
+      set (ps := map py_get_text (py_single_arguments c));
+      unfold py_int_lt at 1, py_len at 1;
+      destruct (length ps <? 2) eqn:Hshort;
+      [ reflexivity
+      | rewrite py_range_0; unfold py_len at 1;
+        pose proof (ct_loop (list entry * await) (documented st, awaiting st) ps [] [] false) as Hloop;
+        cbn [app length] in Hloop;
+        match goal with
+        | |- _ = match ?X with inl _ => _ | inr _ => _ end =>
+            change X with (py_for_ret (seq 0 (length ps))
+                             (ct_body ps (list entry * await) (documented st, awaiting st))
+                             (([] : str), false))
+        end;
+        rewrite Hloop; clear Hloop;
+        destruct (scan_name ps []) as [name|] eqn:E1;
+        [ try match goal with
+              | |- context [scan_name ?a ?b] =>
+                  assert (E2 : scan_name a b = Some name) by exact E1; rewrite E2
+              end; reflexivity
+        | try match goal with
+              | |- context [scan_name ?a ?b] =>
+                  assert (E2 : scan_name a b = None) by exact E1; rewrite E2
+              end; reflexivity ] ].
+
+(* DocumentationAggregator.process_ct_add_test(ctx, docstring): the documented list and the
+   awaiting slot.  self.documented_awaiting_function_def = test_doc aliases the object just
+   appended; the translation records its position in self.documented, the model's AwTop idx *)
+Theorem process_ct_add_test_matches_source :
+  forall c doc docd st,
+    (documented (process_test false c doc docd st), awaiting (process_test false c doc docd st))
+    = PySource.DocumentationAggregator_process_ct_add_test c doc (documented st) (awaiting st).
+Proof. unfold PySource.DocumentationAggregator_process_ct_add_test. ct_process_proof. Qed.
+
+(* DocumentationAggregator.process_ct_add_section(ctx, docstring) *)
+Theorem process_ct_add_section_matches_source :
+  forall c doc docd st,
+    (documented (process_test true c doc docd st), awaiting (process_test true c doc docd st))
+    = PySource.DocumentationAggregator_process_ct_add_section c doc (documented st) (awaiting st).
+Proof. unfold PySource.DocumentationAggregator_process_ct_add_section. ct_process_proof. Qed.
+
 (* ==== MAIN THEOREMS ====
    A. rstwriter.py
      get_indents_matches_source        interpreted_text_matches_source
@@ -657,7 +1087,12 @@ Proof. intros. rewrite function_process_matches_source. reflexivity. Qed.
      generic_process_matches_source    ctest_process_matches_source
      test_process_matches_source       section_process_matches_source
      attribute_process_matches_source  module_process_matches_source
-     module_process_none *)
+     module_process_none
+   D. aggregator.py, the alias-free process_* methods
+     argument_text_matches_source      process_generic_matches_source
+     process_set_matches_source        process_set_never_crashes
+     process_option_matches_source     process_add_test_matches_source
+     process_ct_add_test_matches_source  process_ct_add_section_matches_source *)
 Print Assumptions get_indents_matches_source.
 Print Assumptions interpreted_text_matches_source.
 Print Assumptions para_text_matches_source.
@@ -687,3 +1122,11 @@ Print Assumptions section_process_matches_source.
 Print Assumptions attribute_process_matches_source.
 Print Assumptions module_process_matches_source.
 Print Assumptions module_process_none.
+Print Assumptions argument_text_matches_source.
+Print Assumptions process_generic_matches_source.
+Print Assumptions process_set_matches_source.
+Print Assumptions process_set_never_crashes.
+Print Assumptions process_option_matches_source.
+Print Assumptions process_add_test_matches_source.
+Print Assumptions process_ct_add_test_matches_source.
+Print Assumptions process_ct_add_section_matches_source.
